@@ -67,8 +67,29 @@ impl<T: quote::ToTokens> ToTs for T {
     }
 }
 
+/// finds `break <expr>` belonging to one loop (does not descend into nested loops or closures)
+#[derive(Default)]
+struct BreakFinder {
+    breaks: Vec<String>,
+}
+impl<'ast> Visit<'ast> for BreakFinder {
+    fn visit_expr_break(&mut self, b: &'ast syn::ExprBreak) {
+        if b.label.is_none() {
+            if let Some(e) = &b.expr {
+                self.breaks.push(format!("{{\"span\":{},\"expr\":{}}}", span_json(b.span()), span_json(e.span())));
+            }
+        }
+    }
+    fn visit_expr_loop(&mut self, _e: &'ast syn::ExprLoop) {}
+    fn visit_expr_while(&mut self, _e: &'ast syn::ExprWhile) {}
+    fn visit_expr_for_loop(&mut self, _e: &'ast syn::ExprForLoop) {}
+    fn visit_expr_closure(&mut self, _e: &'ast syn::ExprClosure) {}
+    fn visit_item(&mut self, _i: &'ast syn::Item) {}
+}
+
 #[derive(Default)]
 struct Inner {
+    nested: Vec<String>,
     loops: Vec<String>,
     closures: Vec<String>,
     macros: Vec<String>,
@@ -89,11 +110,28 @@ impl Inner {
 }
 
 impl<'ast> Visit<'ast> for Inner {
+    fn visit_item_fn(&mut self, f: &'ast syn::ItemFn) {
+        let ret = match &f.sig.output {
+            syn::ReturnType::Default => "null".to_string(),
+            syn::ReturnType::Type(_, t) => span_json(t.span()),
+        };
+        self.nested.push(format!(
+            "{{\"name\":{},\"span\":{},\"ret\":{},\"body_start\":{}}}",
+            js(&f.sig.ident.to_string()),
+            span_json(f.span()),
+            ret,
+            br(f.block.brace_token.span.open()).0
+        ));
+        syn::visit::visit_item_fn(self, f);
+    }
     fn visit_expr_loop(&mut self, e: &'ast syn::ExprLoop) {
+        let mut bf = BreakFinder::default();
+        bf.visit_block(&e.body);
         self.loops.push(format!(
-            "{{\"kind\":\"loop\",\"span\":{},\"body_start\":{}}}",
+            "{{\"kind\":\"loop\",\"span\":{},\"body_start\":{},\"breaks\":[{}]}}",
             span_json(e.span()),
-            br(e.body.brace_token.span.open()).0
+            br(e.body.brace_token.span.open()).0,
+            bf.breaks.join(",")
         ));
         syn::visit::visit_expr_loop(self, e);
     }
@@ -237,7 +275,7 @@ impl Out {
             None => "null".into(),
         };
         self.items.push(format!(
-            "{{\"kind\":\"fn\",\"key\":{},\"ctx\":{},\"span\":{},\"attrs\":{},\"vis\":{},\"sig\":{},\"body\":{},\"loops\":[{}],\"closures\":[{}],\"macros\":[{}],\"cfgs\":[{}],\"unsafes\":[{}],\"calls\":[{}]}}",
+            "{{\"kind\":\"fn\",\"key\":{},\"ctx\":{},\"span\":{},\"attrs\":{},\"vis\":{},\"sig\":{},\"body\":{},\"loops\":[{}],\"closures\":[{}],\"macros\":[{}],\"cfgs\":[{}],\"unsafes\":[{}],\"calls\":[{}],\"nested\":[{}]}}",
             js(&key),
             js(ctx),
             span_json(whole),
@@ -250,7 +288,8 @@ impl Out {
             inner.macros.join(","),
             inner.cfgs.join(","),
             inner.unsafes.join(","),
-            inner.calls.join(",")
+            inner.calls.join(","),
+            inner.nested.join(",")
         ));
     }
 
